@@ -94,6 +94,10 @@ def one(M, rec, rng, g, desc, pars, st, concat=False):
         if T2 is not None:
             pars = dict(pars, T=T2)  # the numeric twin is built directly at the last sampling time
             rec.count("cases_stepped_again_with_another_sampling_time")
+        if sym.parameters_modified_by_compile:
+            rec.violation(f"{PROP}:to_function changed the caller's parameters mapping: the next compilation with the same mapping declares other parameters than the caller's",
+                          {"desc": desc, "changed": sym.parameters_modified_by_compile[:5], "sym_type": st})
+            sym.parameters_modified_by_compile = None
         if sym.stacked:
             rec.count("cases_with_one_stacked_vector_parameter")
             if sym.concatenated:
@@ -151,6 +155,10 @@ def one(M, rec, rng, g, desc, pars, st, concat=False):
                     f"with plain numbers (more_out={more_out}; symbolic model parameters: {','.join(kinds)})",
                     dict(ctx, exception=repr(e)[:300]))
                 continue
+            if sym.parameters_modified_by_compile:
+                rec.violation(f"{PROP}:to_function changed the caller's parameters mapping: the next compilation with the same mapping declares other parameters than the caller's",
+                              dict(ctx, changed=sym.parameters_modified_by_compile[:5], more_out=more_out))
+                sym.parameters_modified_by_compile = None
             # trailing parameter arguments in declared order
             rec.count("layout_checks")
             ni = list(Fs.name_in())
